@@ -34,17 +34,49 @@ def currentBlocked (s : State) : Bool :=
 
 def hs (l n : Nat) : List Event := List.replicate n (.handlerStep l)
 
+/-! ### What the regenerated source facts say about the three operations
+
+Each finding below is stated **relative to today's source**: "if the source has no hand-over before this wait, then …
+stall" and "if it has one, the program is well-formed" (so `Props.C11.current_never_blocked` / `queue_drains` cover it).
+Both halves are checked on every run; which antecedent holds is decided by `Generated.WaitShape`, regenerated from the
+working tree.  On a tree where a finding is open the stall half is the content (and the same history stalls the real
+connection: known finding); on a tree where it is fixed the well-formedness half is. -/
+
+/-- the source hands the reader loop over before the limiter waits of `fn` (inside `acquireEndpoint`, or by the hook the
+    connection installs, called first thing in `fn`) -/
+def limiterHandsOver (udp : Bool) (fn : String) : Bool :=
+  preceded "LimitParallelRequests.acquireEndpoint" "select" || handed udp fn "LimitParallelRequests.acquireEndpoint"
+
+/-- … on the way to the select on the first notification: in its only caller `Conn.doObserve` (before the request is
+    written), or in `NewObservation` right before the select (on the datagram transport the write's wait for the ACK comes
+    first and must have its own) -/
+def observeHandsOver (udp : Bool) : Bool :=
+  handed udp "Conn.doObserve" "Handler.NewObservation" ||
+  (preceded "Handler.NewObservation" "select" && (!udp || preceded "Conn.waitForAcknowledge" "select"))
+
+/-- … before the select on the pong (in `Client.Ping`, or in the `Conn.Ping` that wraps it) -/
+def pingHandsOver (udp : Bool) : Bool :=
+  handed udp "Conn.Ping" "Client.Ping" || preceded "Client.Ping" "select"
+
 /-! ### F11 -/
 
-/-- today's source: the limiter's blocking constructs have no replacement request before them -/
-theorem f11_limiter_waits_not_preceded :
-    preceded "LimitParallelRequests.acquireEndpoint" "select" = false ∧
-    preceded "LimitParallelRequests.Do" "acquire" = false ∧
-    preceded "LimitParallelRequests.DoObserve" "acquire" = false := by decide +kernel
-
-/-- hence a nested `Do` under limits is not a well-formed handler program -/
-theorem f11_doProg_not_wf : waitsPreceded (doProg false 1 1 1 1) = false ∧ waitsPreceded (doProg true 1 1 1 1) = false := by
+/-- if the limiter's waits have no replacement request before them, a nested `Do` under limits is not a well-formed
+    handler program (either transport) -/
+theorem f11_doProg_not_wf :
+    (limiterHandsOver false "LimitParallelRequests.Do" = false → waitsPreceded (doProg false 1 1 1 1) = false) ∧
+    (limiterHandsOver true "LimitParallelRequests.Do" = false → waitsPreceded (doProg true 1 1 1 1) = false) := by
   decide +kernel
+
+/-- if they have one, a nested `Do` is well-formed under every limit, on that transport -/
+theorem f11_fixed_wf (udp : Bool) (h : limiterHandsOver udp "LimitParallelRequests.Do" = true) (key epLimit limit k : Nat) :
+    waitsPreceded (doProg udp key epLimit limit k) = true := by
+  simp only [limiterHandsOver] at h
+  simp [doProg, limiterPart, rep, h, waitsPreceded]
+
+theorem f11_fixed_wf_observe (udp : Bool) (h : limiterHandsOver udp "LimitParallelRequests.DoObserve" = true) (key epLimit limit k : Nat) :
+    waitsPreceded (observeProg udp key epLimit limit k) = true := by
+  simp only [limiterHandsOver] at h
+  simp [observeProg, limiterPart, rep, h, waitsPreceded]
 
 def f11Inbox : List Msg := [⟨1, .req (doProg false 1 1 1 1)⟩, ⟨2, .req (doProg false 1 1 1 2)⟩, ⟨101, .resp 1⟩]
 
@@ -55,46 +87,80 @@ def f11Schedule : List Event :=
   [.feederRead, .feederPush, .loopTake 0] ++ hs 0 7 ++ [.feederRead, .feederPush, .loopTake 1] ++ hs 1 2 ++
   [.feederRead, .feederPush]
 
-/-- **F11 on the model (default limits 1/1, stream transport):** the answer to the first nested call is in the queue, the
-    connection is open, and the current loop is blocked in the limiter. -/
+/-- **F11 on the model (default limits 1/1, stream transport), for a source without hand-over before the limiter:** the
+    answer to the first nested call is in the queue, the connection is open, and the current loop is blocked in the limiter. -/
 theorem f11_stall :
-    let s := run (init 16 false f11Inbox) f11Schedule
-    currentBlocked s = true ∧ (waiting s).map (·.id) = [101] ∧ s.closed = false ∧ s.current = 1 := by
+    limiterHandsOver false "LimitParallelRequests.Do" = false →
+    (let s := run (init 16 false f11Inbox) f11Schedule
+     currentBlocked s = true ∧ (waiting s).map (·.id) = [101] ∧ s.closed = false ∧ s.current = 1) := by
   decide +kernel
 
 /-! ### F12 -/
 
-theorem f12_first_notification_wait_not_preceded : preceded "Handler.NewObservation" "select" = false := by decide +kernel
-
-/-- on a stream transport `DoObserve` (even without limits) is not well-formed; on the datagram transport it is -/
-theorem f12_observeProg_wf : waitsPreceded (observeProg false 1 0 0 1) = false ∧ waitsPreceded (observeProg true 1 0 0 1) = true := by
+/-- without a hand-over before the first-notification wait, `DoObserve` on a stream transport (even without limits) is not
+    well-formed; on the datagram transport the confirmable write of the request asks for a replacement anyway -/
+theorem f12_observeProg_wf :
+    ((limiterHandsOver false "LimitParallelRequests.DoObserve" || observeHandsOver false) = false →
+      waitsPreceded (observeProg false 1 0 0 1) = false) ∧
+    waitsPreceded (observeProg true 1 0 0 1) = true := by
   decide +kernel
+
+/-- with one, `DoObserve` without limits is well-formed on that transport -/
+theorem f12_fixed_wf (udp : Bool) (h : observeHandsOver udp = true) (key k : Nat) :
+    waitsPreceded (observeProg udp key 0 0 k) = true := by
+  simp only [observeHandsOver] at h
+  cases h1 : (preceded "LimitParallelRequests.acquireEndpoint" "select" || handed udp "LimitParallelRequests.DoObserve" "LimitParallelRequests.acquireEndpoint") <;>
+  cases h2 : preceded "LimitParallelRequests.DoObserve" "acquire" <;>
+  cases h3 : handed udp "Conn.doObserve" "Handler.NewObservation" <;>
+  cases h4 : preceded "Handler.NewObservation" "select" <;>
+  cases udp <;>
+  simp_all [observeProg, limiterPart, ackPart, rep, totalKey, waitsPreceded] <;>
+  cases h5 : preceded "Conn.waitForAcknowledge" "select" <;> simp_all [waitsPreceded]
 
 def f12Inbox : List Msg := [⟨1, .req (observeProg false 1 0 0 1)⟩, ⟨2, .req []⟩, ⟨101, .resp 1⟩]
 
 def f12Schedule : List Event := [.feederRead, .feederPush, .loopTake 0] ++ hs 0 4 ++ [.feederRead, .feederPush, .feederRead]
 
-/-- **F12 on the model (stream transport, no limits, queue capacity 1):** the handler of request 1 waits for the first
-    notification of its observation in the one and only loop; request 2 is queued and the notification itself is in
-    the reader's hand. -/
+/-- **F12 on the model (stream transport, no limits, queue capacity 1), for a source without hand-over on the way to the
+    first-notification wait:** the handler of request 1 waits for the first notification of its observation in the one
+    and only loop; request 2 is queued and the notification itself is in the reader's hand. -/
 theorem f12_stall :
-    let s := run (init 1 false f12Inbox) f12Schedule
-    currentBlocked s = true ∧ (waiting s).map (·.id) = [2, 101] ∧ s.closed = false ∧ s.current = 0 := by
+    (limiterHandsOver false "LimitParallelRequests.DoObserve" || observeHandsOver false) = false →
+    (let s := run (init 1 false f12Inbox) f12Schedule
+     currentBlocked s = true ∧ (waiting s).map (·.id) = [2, 101] ∧ s.closed = false ∧ s.current = 0) := by
   decide +kernel
 
 /-! ### Ping -/
 
-theorem ping_wait_not_preceded : preceded "Client.Ping" "select" = false := by decide +kernel
+theorem ping_fixed_wf (udp : Bool) (h : pingHandsOver udp = true) : waitsPreceded (pingProg udp) = true := by
+  simp only [pingHandsOver, Bool.or_eq_true] at h
+  cases h1 : handed udp "Conn.Ping" "Client.Ping" <;> cases h2 : preceded "Client.Ping" "select" <;>
+  simp_all [pingProg, rep, waitsPreceded]
 
-def pingInbox : List Msg := [⟨1, .req ([.send 0] ++ pingProg)⟩, ⟨2, .req []⟩, ⟨101, .pong⟩]
+def pingInbox : List Msg := [⟨1, .req (pingProg false)⟩, ⟨2, .req []⟩, ⟨101, .pong⟩]
 
 def pingSchedule : List Event := [.feederRead, .loopTake 0] ++ hs 0 2 ++ [.feederRead]
 
-/-- **Ping inside a handler (queue capacity 0):** the loop waits for the pong; the socket reader is stuck handing request 2
-    over, so the pong behind it is never read. -/
+/-- **Ping inside a handler (queue capacity 0), for a source without hand-over before the wait for the pong:** the loop
+    waits for the pong; the socket reader is stuck handing request 2 over, so the pong behind it is never read. -/
 theorem ping_stall :
-    let s := run (init 0 false pingInbox) pingSchedule
-    currentBlocked s = true ∧ s.hand.map (·.id) = some 2 ∧ s.inbox.map (·.id) = [101] ∧ s.ponged = false := by
+    pingHandsOver false = false →
+    (let s := run (init 0 false pingInbox) pingSchedule
+     currentBlocked s = true ∧ s.hand.map (·.id) = some 2 ∧ s.inbox.map (·.id) = [101] ∧ s.ponged = false) := by
+  decide +kernel
+
+/-! ### The unrestricted statement is false whatever the source looks like -/
+
+/-- a handler written by hand that waits for the answer to its own request without asking for a replacement loop -/
+def rawWaiter : List Act := [.startCall 1 30000, .send 1, .wait (.delivered 1) true, .endCall 1]
+
+def rawInbox : List Msg := [⟨1, .req rawWaiter⟩, ⟨101, .resp 1⟩]
+
+def rawSchedule : List Event := [.feederRead, .feederPush, .loopTake 0] ++ hs 0 2 ++ [.feederRead, .feederPush]
+
+theorem raw_stall :
+    let s := run (init 16 false rawInbox) rawSchedule
+    currentBlocked s = true ∧ (waiting s).map (·.id) = [101] ∧ s.closed = false := by
   decide +kernel
 
 /-- **The unrestricted statement is refuted**: without the well-formedness hypothesis `current_never_blocked` fails. -/
@@ -102,21 +168,23 @@ theorem not_current_never_blocked_without_wf :
     ¬ (∀ (cap : Nat) (udp : Bool) (inbox : List Msg) (evs : List Event),
         currentBlocked (run (init cap udp inbox) evs) = false) := by
   intro h
-  have := h 16 false f11Inbox f11Schedule
-  have hs := f11_stall.1
+  have := h 16 false rawInbox rawSchedule
+  have hs := raw_stall.1
   rw [this] at hs; cases hs
 
 end CoapVerif.Findings.C11
 
 section Audit
 open CoapVerif.Findings.C11
-#print axioms f11_limiter_waits_not_preceded
 #print axioms f11_doProg_not_wf
+#print axioms f11_fixed_wf
+#print axioms f11_fixed_wf_observe
 #print axioms f11_stall
-#print axioms f12_first_notification_wait_not_preceded
 #print axioms f12_observeProg_wf
+#print axioms f12_fixed_wf
 #print axioms f12_stall
-#print axioms ping_wait_not_preceded
+#print axioms ping_fixed_wf
 #print axioms ping_stall
+#print axioms raw_stall
 #print axioms not_current_never_blocked_without_wf
 end Audit
